@@ -16,7 +16,7 @@ def run(tier, seed):
         ck.violation("harness-build", {"kind": "build"}, {"log": log[-3000:]}, no_input=True)
         return ck.finish()
     rc, out = sh([binp, "-seed", str(seed), "-n", str(n)], timeout=1200)
-    cases = [json.loads(l) for l in out.split("\n") if l.startswith("{")]
+    cases = jlines(out)
     if rc != 0 or not cases:
         ck.violation("process-crash", {"kind": "process-crash"}, {"rc": rc, "tail": out[-3000:]})
         return ck.finish()
